@@ -159,6 +159,21 @@ def check_property(prop, tier='quick', seed=0, only=None, verbose=False):
         except Exception as e:
             native_err = str(e)
 
+    # ---- bounded stand-in: contracts with undecided obligations are additionally sampled natively (boundary + seeded random
+    # inputs on the REAL code, all post-conditions evaluated in CPython).  Never counted as proved.
+    standin = {}
+    n_samples = 150 if tier == 'quick' else 1000
+    need = [r for r in results if (r['error'] and r['error']['kind'] == 'undecided') or any(x['status'] == 'undecided' for x in r['records'])]
+    if need and not native_err:
+        sitems = [{'contract': r['contract'], 'values': {}, 'tag': 'sample:%d' % i, 'sample_seed': seed * 100003 + i}
+                  for r in need for i in range(n_samples)]
+        try:
+            sruns = native_run(prop, sitems, timeout=1200)
+            for it, run in zip(sitems, sruns):
+                standin.setdefault(it['contract'], []).append(run)
+        except Exception as e:
+            native_err = 'stand-in: ' + str(e)
+
     known = load_known()
     exit_code = 0
     lines = []
@@ -268,6 +283,33 @@ def check_property(prop, tier='quick', seed=0, only=None, verbose=False):
     for msg in conc_bad:
         engine_errors.append('ENGINE-MISMATCH ' + msg)
 
+    standin_info = []
+    for cname, runs in standin.items():
+        ran = [x for x in runs if not (x.get('error') or '').startswith('precondition-not-met')]
+        bad = None
+        for x in ran:
+            if x.get('error'):
+                continue
+            fails = [e for e in x['ensures'] if e[2] is False]
+            if fails:
+                bad = (x, fails[0])
+                break
+        standin_info.append({'contract': cname, 'bound': '%d seeded boundary/random inputs executed natively (bounded stand-in for undecided obligations)' % len(ran)})
+        if bad is not None:
+            x, e = bad
+            obid = '%s/%s' % (cname, e[0])
+            kf = match_known(known, prop, cname, e[0], x.get('values', {}))
+            if kf:
+                known_hits.append((kf, obid))
+                continue
+            replay_path = os.path.join(VERIF_ROOT, 'replays', prop, '%s.%s.sample.json' % (cname, e[0].replace('/', '_')))
+            json.dump({'property': prop, 'contract': cname, 'obligation': e[0], 'class': e[1], 'values': x.get('values'), 'native': x,
+                       'found_by': 'bounded native stand-in (the symbolic obligation was undecided)',
+                       'replay_cmd': './vcheck %s --replay %s' % (prop, replay_path)}, open(replay_path, 'w'), indent=1, default=str)
+            lines.append('VIOLATION property=%s replay=%s' % (prop, replay_path))
+            violations += 1
+            print('  bounded stand-in found a failing input for %s: %s (raised=%s result=%s)' % (obid, json.dumps(x.get('values'))[:400], x.get('raised'), x.get('result')))
+
     seen_kf = set()
     for kf, obid in known_hits:
         if id(kf) in seen_kf:
@@ -300,7 +342,7 @@ def check_property(prop, tier='quick', seed=0, only=None, verbose=False):
 
     funcs = sorted(set(f for r in results for f in r['funcs']))
     assumptions = sorted(set(a for r in results for a in r['assumptions']))
-    bounded = [{'contract': r['contract'], 'bound': r['bounded']} for r in results if r['bounded']]
+    bounded = [{'contract': r['contract'], 'bound': r['bounded']} for r in results if r['bounded']] + standin_info
     cover = {
         'obligations': n_obl - len(known_hits), 'discharged': n_dis,
         'obligations_failing_as_listed_known_findings': len(known_hits),
